@@ -199,7 +199,7 @@ func (s *Sim) answerQuery(r *Req, outcome string) {
 	v := res.V[r.Query]
 	if v == nil || v.Deleted {
 		if v != nil && v.Announced != nil && !v.deleteAnnounced() {
-			ev := &StreamEv{Kind: "delete", Derived: true, EmitStep: s.Step, EmitCut: s.Cut}
+			ev := &StreamEv{Kind: "delete", Derived: true, Via: r, EmitStep: s.Step, EmitCut: s.Cut}
 			v.announce(ev, true)
 			s.sawDerived[v] = true
 		}
@@ -368,13 +368,8 @@ func (s *Sim) resetDelivered(rec *ResetRec) {
 					if h.Kind == 'e' || h.Deleted || h.iv == nil || h.iv.StartCut >= s.Cut {
 						continue
 					}
-					full := c.expandCID(rid)
-					if _, vv := s.W.lookup(full); vv == v && rec.Quiet {
-						ck := nq
-						if !res.IsQuery {
-							_, ck = splitRID(full)
-						}
-						rec.Must[name+"?"+ck] = true
+					if _, vv := s.W.lookup(c.expandCID(rid)); vv == v && rec.Quiet {
+						rec.Must[name+"?"+nq] = true
 					}
 				}
 			}
@@ -423,13 +418,6 @@ func (s *Sim) refetchClass(r *Req) int8 {
 		return 0
 	}
 	v := res.V[r.Query]
-	if !res.IsQuery {
-		// without a query in the answer each raw query is a cache entry of its own
-		v = nil
-		if n, ok := res.normalise(r.Query); ok {
-			v = res.V[n]
-		}
-	}
 	if v == nil {
 		// a re-fetch carries the normalised query
 		return 0
@@ -438,6 +426,8 @@ func (s *Sim) refetchClass(r *Req) int8 {
 		seq  uint64
 		q    *Req
 		send bool
+		del  bool
+		cut  int
 	}
 	var evs []ev
 	for _, q := range s.tr.reqs {
@@ -447,24 +437,53 @@ func (s *Sim) refetchClass(r *Req) int8 {
 		if n, ok := res.normalise(q.Query); !ok || n != v.Query {
 			continue
 		}
-		if !res.IsQuery && q.Query != r.Query {
-			continue
-		}
-		evs = append(evs, ev{q.Seq, q, true})
+		evs = append(evs, ev{seq: q.Seq, q: q, send: true})
 		if q.Delivered && q.DlvSeq < r.Seq {
-			evs = append(evs, ev{q.DlvSeq, q, false})
+			evs = append(evs, ev{seq: q.DlvSeq, q: q, cut: q.DlvCut})
+		}
+	}
+	for _, e := range v.Stream {
+		// a delete event drops the cached resource as well
+		if e.Kind == "delete" && !e.Derived && e.DlvCut >= 0 && e.DlvSeq < r.Seq {
+			evs = append(evs, ev{seq: e.DlvSeq, del: true, cut: e.DlvCut})
+		}
+		if e.Kind == "delete" && e.Derived && e.Via != nil && e.Via.Type != "get" && e.Via.Delivered && e.Via.DlvSeq < r.Seq {
+			evs = append(evs, ev{seq: e.Via.DlvSeq, del: true, cut: e.Via.DlvCut})
 		}
 	}
 	sort.Slice(evs, func(i, j int) bool { return evs[i].seq < evs[j].seq })
 	// loaded: the normalised variant is cached. initial: loads in flight; a get
 	// whose query is not the normalised one is always such a load (a re-fetch
-	// carries the normalised query).
+	// carries the normalised query) and has a cache entry of its own until it
+	// is answered.
 	loaded := false
 	initial := map[*Req]bool{}
 	refetch := map[*Req]bool{}
+	// fuzzy: an answer or delete event reached the gateway but the gateway has
+	// not been idle since: it may still sit in the resource's work queue behind
+	// whatever made the gateway send r
+	fuzzy := false
 	for _, e := range evs {
+		if e.del {
+			if e.cut >= r.Cut {
+				fuzzy = true
+			}
+			loaded = false
+			continue
+		}
+		if !e.send && e.cut >= r.Cut && (!e.q.GotData || e.q.Query != r.Query) {
+			// (an answer with data to a get with the same query leaves no doubt: with
+			// or without it r can only be a re-fetch)
+			fuzzy = true
+		}
 		if e.send {
-			if (res.IsQuery && e.q.Query != v.Query) || (!loaded && len(initial) == 0) {
+			same := false
+			for q := range initial {
+				if q.Query == v.Query {
+					same = true
+				}
+			}
+			if e.q.Query != v.Query || (!loaded && !same) {
 				initial[e.q] = true
 			} else {
 				refetch[e.q] = true
@@ -480,11 +499,11 @@ func (s *Sim) refetchClass(r *Req) int8 {
 			loaded = false
 		}
 	}
-	for _, e := range v.Stream {
-		// a delete event drops the cached resource as well
-		if e.Kind == "delete" && !e.Derived && e.DlvCut >= 0 && e.DlvSeq < r.Seq {
-			return 0
-		}
+	if r.Query != v.Query {
+		return 0
+	}
+	if fuzzy {
+		return 1
 	}
 	if !refetch[r] {
 		return 0
@@ -641,6 +660,11 @@ func (s *Sim) resetQuiescence() {
 			found := false
 			if res := s.W.Res[k.name]; res != nil && res.V != nil && s.unsure[res.V[k.q]] {
 				found = true
+			}
+			for _, r := range s.tr.reqs {
+				if r.Type == "get" && r.Rf == 1 && r.Name == k.name && r.Query == k.q && r.Seq > rec.DlvSeq {
+					found = true
+				}
 			}
 			for _, r := range refetch[k] {
 				if r.Seq > rec.DlvSeq {
